@@ -29,6 +29,8 @@ GEN_REL = "lean/Usual/Gen/C11.lean"
 GEN_PATH = os.path.join(vf.VERIF, GEN_REL)
 B3SET = [0x00, 0x7F, 0x80, 0x8F, 0x90, 0xBF, 0xC0, 0xFF]
 NPROC = max(2, min(16, os.cpu_count() or 2))
+VARIANTS = [("signed", ("-fsigned-char",)), ("unsigned", ("-funsigned-char",))]
+MODEL_CACHE = {}      # op lines -> model output (the model is run once, compared with every build)
 
 
 # ------------------------------------------------------------------------------ build
@@ -75,12 +77,27 @@ def build(ck):
                              "(the source left the translated subset)")
             restore_gen(ck)
             ck.lake(["Usual.Gen.C11"])
-    h = ck.cc(os.path.join(ck.bdir, "h"), [os.path.join(vf.HARNESS, PID, "h.c"), "repo:usual/utf8.c"])
-    return [h], [ck.driver_path("drv_c11")]
+    # the harness and the library source are built twice: plain char signed (x86 default) and
+    # unsigned (-funsigned-char = the native ABI of ARM/AArch64/PowerPC/s390).  h.c includes the
+    # working tree's <usual/utf8.h> (-I REPO), so the prototypes in force are the current ones.
+    hs = {}
+    for name, flags in VARIANTS:
+        hs[name] = [ck.cc(os.path.join(ck.bdir, "h-" + name),
+                          [os.path.join(vf.HARNESS, PID, "h.c"), "repo:usual/utf8.c"], flags=flags)]
+    return hs, [ck.driver_path("drv_c11")]
 
 
 # ------------------------------------------------------------------- running both sides
 def run_side(ck, cmd, ops, is_impl, timeout):
+    if not is_impl:
+        key = "\n".join(ops)
+        if key not in MODEL_CACHE:
+            MODEL_CACHE[key] = run_side1(ck, cmd, ops, is_impl, timeout)
+        return list(MODEL_CACHE[key])
+    return run_side1(ck, cmd, ops, is_impl, timeout)
+
+
+def run_side1(ck, cmd, ops, is_impl, timeout):
     rc, out, err = ck.run(cmd, input_text="\n".join(ops) + "\n", timeout=timeout)
     lines = (out or "").split("\n")
     if lines and lines[-1] == "":
@@ -139,6 +156,10 @@ def direct_ops(kind, i):
         return ["%s %s" % ("vseq" if kind[1] == "v" else "getc", bs.hex())]
     if kind[0] == "put":
         return ["charsize %x" % i] + ["putc %x %d" % (i, room) for room in range(5)]
+    if kind[0] == "rt":
+        return ["rtc %x" % i]
+    if kind[0] == "seqc":
+        return ["seqsizec %02x" % i]
     return ["seqsize %02x" % i]
 
 
@@ -161,14 +182,16 @@ def report_direct(ck, hcmd, dcmd, ops, label, extra=None):
     returns number reported"""
     n = 0
     seen = ck.__dict__.setdefault("_c11_reported", set())
+    variant = getattr(ck, "_c11_variant", "signed")
     for op in ops:
-        if op in seen:
+        if (variant, op) in seen:
             n += 1
             continue
         a, b = both(ck, hcmd, dcmd, [op])
         if a != b:
-            seen.add(op)
-            r = {"label": label, "ops": [op], "impl": a, "model": b}
+            seen.add((variant, op))
+            r = {"label": label, "ops": [op], "impl": a, "model": b, "variant": variant,
+                 "build": "harness + usual/utf8.c compiled with " + dict(VARIANTS)[variant][0]}
             if extra:
                 r.update(extra)
             ck.report("obs", r, what="utf8.c departs from the proved model on this input")
@@ -187,6 +210,8 @@ def range_plan(which):
             plan.append((kind, lo, min(total, lo + chunk)))
     if which == "base":
         split(("seq",), 256, 256)
+        split(("seqc",), 256, 256)
+        split(("rt",), 0x110400, 1 << 18)
         for f in "vg":
             split(("win", f, 1), 1 << 8, 1 << 8)
             split(("win", f, 2), 1 << 16, 1 << 16)
@@ -206,7 +231,7 @@ def range_plan(which):
 
 
 def evals_of(kind, n):
-    return n * 6 if kind[0] == "put" else n
+    return n * {"put": 6, "rt": 2, "seqc": 3}.get(kind[0], 1)
 
 
 def run_ranges(ck, hcmd, dcmd, plan, max_report=3):
@@ -214,8 +239,9 @@ def run_ranges(ck, hcmd, dcmd, plan, max_report=3):
     order = sorted(range(len(plan)), key=lambda k: -(plan[k][2] - plan[k][1]) * (8 if plan[k][0][1:2] == ("g",) else 1))
     jobs = [[rng_op(*plan[k])] for k in order]
     res = run_jobs(ck, hcmd, dcmd, jobs)
-    hist = ck.cov.setdefault("range_inputs", {})
-    acc = ck.cov.setdefault("range_accepting", {})
+    sfx = "" if getattr(ck, "_c11_variant", "signed") == "signed" else "_unsigned_char_build"
+    hist = ck.cov.setdefault("range_inputs" + sfx, {})
+    acc = ck.cov.setdefault("range_accepting" + sfx, {})
     bad = []
     for k, (a, b) in zip(order, res):
         kind, lo, hi = plan[k]
@@ -425,7 +451,7 @@ def run(ck):
 
 
 def run1(ck):
-    hcmd, dcmd = build(ck)
+    hs, dcmd = build(ck)
     ck.level = "proof"
     ck.cov["trusted_base"] = [
         "Lean 4.33 kernel; property theorems (UsualProofs/Props/C11.lean) use only propext, Quot.sound, Classical.choice",
@@ -435,22 +461,49 @@ def run1(ck):
         "one source byte pointer with an end pointer, stores through one output pointer); refuses anything else",
         "harness/C11/h.c + drv_c11 + the range-hash/bisection logic in checks/C11.py (exact-size heap buffers under ASan+UBSan)",
         "specification: Unicode Table 3-7 / 3-6 as transcribed in lean/Usual/C11/Spec.lean",
-        "utf8_validate_string's loop is modelled by hand (not translated); tied by the correspondence run only",
+        "the translator reads the AST of the default (signed plain char) configuration; the unsigned-char "
+        "configuration is covered by the correspondence run only",
     ]
     ck.assumptions += ["callers pass at least one readable byte (srcend > src): both readers read p[0] unconditionally",
                        "the C compiler (gcc -O1, ASan/UBSan instrumented build) implements the C semantics clang's AST was read with",
                        "pointer arithmetic `p + k > end` is evaluated as on a flat address space (as the code assumes)"]
-    thorough = ck.tier == "thorough"
+    ck.cov["char_signedness_variants"] = [v for v, _ in VARIANTS]
     ck.cov["rule"] = (
-        "evaluations = calls compared between utf8.c and the model: every 1/2/3-byte window at end "
+        "evaluations = calls compared between utf8.c and the model, on EACH of two builds of harness + utf8.c "
+        "(plain char signed / -funsigned-char): every 1/2/3-byte window at end "
         "position 1/2/3, every 4-byte window (thorough, or whenever a proof/tie is broken) or "
         "b0 b1 b2 x {00,7F,80,8F,90,BF,C0,FF} (quick) for utf8_validate_seq and utf8_get_char; "
         "utf8_char_size + utf8_put_char with room 0..4 for every code point 0..0x1103FF and 768 values near "
-        "2^31/2^32; utf8_seq_size on all 256 bytes; utf8_validate_string on generated strings (valid "
+        "2^31/2^32; put_char-then-get_char in C for every code point 0..0x1103FF; utf8_seq_size on all 256 bytes, "
+        "by value and the way a caller does it through the header with char / signed char / unsigned char "
+        "arguments; utf8_validate_string on generated strings (valid "
         "concatenations and single-fault mutations: NUL, truncation, surrogate, overlong, >10FFFF, stray tail, "
-        "bad lead, byte flip); corpus ops.  distinct_nontrivial = inputs on which the code took an accepting / "
+        "bad lead, byte flip); corpus ops.  distinct_nontrivial = inputs (counted once, on the signed-char build) on "
+        "which the code took an accepting / "
         "storing path as counted by the harness itself (validator result != 0, decoder result >= 0, put_char "
-        "stored >= 1 byte, seq_size != 0) + distinct accepted strings; every enumerated input is distinct by construction.")
+        "stored >= 1 byte, round trip exact, seq_size != 0) + distinct accepted strings; every enumerated input is distinct by construction.")
+    deep_any = False
+    for name, _ in VARIANTS:
+        ck._c11_variant = name
+        deep_any = explore(ck, hs[name], dcmd, name) or deep_any
+    ck._c11_variant = "signed"
+    ck.cov["search_volume"] = ("all 1-3 byte windows + all 2^32 four-byte windows" if deep_any else
+                               "all 1-3 byte windows + 2^24 x 8 boundary fourth bytes") + ", on both builds"
+    # the finite spaces named in the property (2^32 windows x 4 end positions, all code points x
+    # room 0..4, 256 lead bytes) were enumerated completely; strings are sampled
+    ck.cov["exhaustive"] = bool(deep_any)
+    ck.cov["partial"] = []
+    acc = sum(ck.cov.get("range_accepting", {}).values())
+    ck.cov["distinct_nontrivial"] = acc + len(ck._distinct)
+    if ck.tier == "thorough":
+        ck.leanchecker(["UsualProofs.Props.C11"])
+
+
+def explore(ck, hcmd, dcmd, variant):
+    """everything the correspondence does, against one build of the code; returns True when all
+    2^32 four-byte windows were enumerated"""
+    thorough = ck.tier == "thorough"
+    primary = variant == "signed"
 
     # 0. counterexamples handed over by bv_decide when a bridge lemma broke
     if not ck.proof_ok:
@@ -467,7 +520,7 @@ def run1(ck):
 
     # 1. corpus (minimised past failures + hand-made boundary cases), one op per line
     corpus = [op for case in vf.corpus_cases(PID) for op in case]
-    nd, _ = run_direct_batch(ck, hcmd, dcmd, corpus, "corpus")
+    run_direct_batch(ck, hcmd, dcmd, corpus, "corpus")
     ck.cov["corpus_ops"] = len(corpus)
 
     # 2. exhaustive ranges
@@ -480,12 +533,6 @@ def run1(ck):
         # concrete was found so far: search all 2^32 four-byte windows as well
         run_ranges(ck, hcmd, dcmd, range_plan("full4"))
         deep = True
-    ck.cov["search_volume"] = ("all 1-3 byte windows + all 2^32 four-byte windows" if deep else
-                               "all 1-3 byte windows + 2^24 x 8 boundary fourth bytes")
-    # the finite spaces named in the property (2^32 windows x 4 end positions, all code points x
-    # room 0..4, 256 lead bytes) were enumerated completely; strings are sampled
-    ck.cov["exhaustive"] = bool(deep)
-    ck.cov["partial"] = []
 
     # 3. strings
     # vf.SplitMix states of consecutive seeds are one draw apart: spread them first
@@ -498,20 +545,27 @@ def run1(ck):
         kinds[k] = kinds.get(k, 0) + 1
         ops.append("vstr " + vf.hexs(s))
     nd, mout = run_direct_batch(ck, hcmd, dcmd, ops, "generated string")
-    ck.cov["string_cases"] = {"total": nstr, "by_construction": kinds,
-                              "model_accepts": sum(1 for x in mout if x == "1"),
-                              "model_rejects": sum(1 for x in mout if x == "0")}
-    for op, r in zip(ops, mout):
-        if r == "1":
-            ck.distinct(op)
-    acc = sum(ck.cov.get("range_accepting", {}).values())
-    ck.cov["distinct_nontrivial"] = acc + len(ck._distinct)
-    for s in ["win v 3 0 16777216", "vseq e0a080", "getc eda080", "putc 10ffff 4", ops[0] if ops else "vstr -"]:
+    if primary:
+        ck.cov["string_cases"] = {"total": nstr, "by_construction": kinds,
+                                  "model_accepts": sum(1 for x in mout if x == "1"),
+                                  "model_rejects": sum(1 for x in mout if x == "0")}
+        for op, r in zip(ops, mout):
+            if r == "1":
+                ck.distinct(op)
+    samples = ["win v 3 0 16777216", "vseq e0a080", "getc eda080", "putc 10ffff 4", "seqsizec c3",
+               ops[0] if ops else "vstr -"] if primary else ["win v 3 0 16777216", "seqsizec c3"]
+    for s in samples:
         a, b = both(ck, hcmd, dcmd, [s])
-        ck.sample("%s -> impl %s | model %s" % (s, a[0] if a else "?", b[0] if b else "?"))
-    if ck.tier == "thorough":
-        ck.leanchecker(["UsualProofs.Props.C11"])
+        ck.sample("[%s char] %s -> impl %s | model %s" % (variant, s, a[0] if a else "?", b[0] if b else "?"), limit=8)
+    return deep
 
 
 def replay(ck, path):
-    return vf.generic_replay(ck, path, *build(ck))
+    import json
+    hs, dcmd = build(ck)
+    try:
+        variant = json.load(open(path)).get("variant", "signed")
+    except Exception:
+        variant = "signed"
+    vf.log("replay on the %s-char build" % variant)
+    return vf.generic_replay(ck, path, hs.get(variant, hs["signed"]), dcmd)
